@@ -1,5 +1,6 @@
 #![allow(dead_code)]
 mod cfam;
+mod clifam;
 mod drive;
 mod enc;
 mod indep;
@@ -38,6 +39,7 @@ fn main() {
         "C17" => run_check(&mfam::C17, &args),
         "C10" => run_check(&xfam::C10, &args),
         "C11" => run_check(&sched::C11, &args),
+        "C16" => run_check(&clifam::C16, &args),
         "C06" => run_check(&wfam::C06, &args),
         "C07" => run_check(&wfam::C07, &args),
         "C08" => run_check(&wfam::C08, &args),
